@@ -106,6 +106,16 @@ def install(it):
                 p.add(c <= zint(hi))
             return SInt(c)
 
+        @B('fresh_bits')
+        def _fresh_bits(it, a, kw):
+            """A non-negative int < 2**width, reasoned about in the
+            bit-vector theory."""
+            name, width = a[0], a[1]
+            from .ops import BVW
+            c = z3.BitVec(name, width)
+            it.path.inputs[name] = ('bits', c)
+            return SInt(None, z3.ZeroExt(BVW - width, c), width)
+
         @B('fresh_bool')
         def _fresh_bool(it, a, kw):
             c = z3.Bool(a[0])
